@@ -10,6 +10,7 @@ import (
 	"context"
 	"errors"
 	"fmt"
+	"net"
 	"strconv"
 	"strings"
 	"sync"
@@ -18,11 +19,13 @@ import (
 
 	"github.com/miekg/dns"
 	"github.com/semihalev/sdns/config"
+	"github.com/semihalev/sdns/internal/contextutil"
 	"github.com/semihalev/sdns/internal/mock"
 	"github.com/semihalev/sdns/internal/verif/vlib"
 	"github.com/semihalev/sdns/middleware"
 	"github.com/semihalev/sdns/middleware/cache"
 	"github.com/semihalev/sdns/middleware/edns"
+	"github.com/semihalev/sdns/middleware/failover"
 	"github.com/semihalev/sdns/middleware/resolver"
 )
 
@@ -466,6 +469,7 @@ type stub struct {
 	nest    bool // recurse through the queryer
 	maxSeen atomic.Int32
 	lastErr atomic.Value
+	lastCtx context.Context // the context the stub was served with (kept past the request on purpose)
 	script  func(ctx context.Context, reply *dns.Msg) // fail classify: what happens before the SERVFAIL is written
 	cancel  context.CancelFunc
 }
@@ -475,6 +479,7 @@ func (s *stub) SetQueryer(q middleware.Queryer) { s.q = q }
 
 func (s *stub) ServeDNS(ctx context.Context, ch *middleware.Chain) {
 	s.calls.Add(1)
+	s.lastCtx = ctx
 	req := ch.Request.Msg()
 	if s.nest {
 		// "l<k>.nest." asks for "l<k+1>.nest." through the internal sub-pipeline
@@ -503,6 +508,23 @@ func (s *stub) ServeDNS(ctx context.Context, ch *middleware.Chain) {
 		ch.Cancel()
 		return
 	}
+	if strings.HasSuffix(req.Question[0].Name, ".chain.test.") {
+		// c<k>-<id>.chain.test. is an alias of c<k-1>-<id>.chain.test.; c0-<id> has the address.
+		// The answer is always the one record: following it is left to the cache.
+		var k, id int
+		fmt.Sscanf(req.Question[0].Name, "c%d-%d.chain.test.", &k, &id)
+		m := new(dns.Msg)
+		m.SetReply(req)
+		if k > 0 {
+			m.Answer = []dns.RR{&dns.CNAME{Hdr: dns.RR_Header{Name: req.Question[0].Name, Rrtype: dns.TypeCNAME, Class: dns.ClassINET, Ttl: 300},
+				Target: fmt.Sprintf("c%d-%d.chain.test.", k-1, id)}}
+		} else {
+			m.Answer = []dns.RR{&dns.A{Hdr: dns.RR_Header{Name: req.Question[0].Name, Rrtype: dns.TypeA, Class: dns.ClassINET, Ttl: 300}, A: net.IPv4(192, 0, 2, 55)}}
+		}
+		_ = ch.Writer.WriteMsg(m)
+		ch.Cancel()
+		return
+	}
 	if strings.HasPrefix(req.Question[0].Name, "a") && strings.HasSuffix(req.Question[0].Name, ".alias.test.") {
 		// the resolver's answer is the alias alone; its target is left to the cache's own chase
 		m := new(dns.Msg)
@@ -526,17 +548,66 @@ func (s *stub) ServeDNS(ctx context.Context, ch *middleware.Chain) {
 	ch.Cancel()
 }
 
+// fallbackSrv is the upstream the failover middleware turns to: it answers every question
+// NOERROR with one A record and counts what it was asked.
+type fallbackSrv struct {
+	pc   net.PacketConn
+	hits atomic.Int32
+}
+
+var theFallback *fallbackSrv
+
+func fallback() *fallbackSrv {
+	if theFallback != nil {
+		return theFallback
+	}
+	pc, err := net.ListenPacket("udp", "127.0.0.1:0")
+	if err != nil {
+		panic(err)
+	}
+	fs := &fallbackSrv{pc: pc}
+	go func() {
+		buf := make([]byte, 4096)
+		for {
+			n, addr, err := pc.ReadFrom(buf)
+			if err != nil {
+				return
+			}
+			req := new(dns.Msg)
+			if req.Unpack(buf[:n]) != nil || len(req.Question) == 0 {
+				continue
+			}
+			fs.hits.Add(1)
+			m := new(dns.Msg)
+			m.SetReply(req)
+			m.RecursionAvailable = true
+			m.Answer = []dns.RR{&dns.A{Hdr: dns.RR_Header{Name: req.Question[0].Name, Rrtype: dns.TypeA, Class: dns.ClassINET, Ttl: 60}, A: net.IPv4(192, 0, 2, 99)}}
+			if o := req.IsEdns0(); o != nil {
+				m.SetEdns0(1232, o.Do())
+			}
+			if b, err := m.Pack(); err == nil {
+				_, _ = pc.WriteTo(b, addr)
+			}
+		}
+	}()
+	theFallback = fs
+	return fs
+}
+
 type miniPipe struct {
 	p      *middleware.Pipeline
 	st     *stub
 	policy middleware.RecursionWorkPolicy
 	failed map[string]bool // reference: names whose failure may legitimately be cached
 	cfg    [nKinds]uint32  // configured caps
+	fo     bool            // failover middleware with one fallback server between cache and stub
+	good   map[string]bool // reference: names a fallback answer was legitimately obtained for
 }
 
 var curPipe *miniPipe
 
-func pipeNew(mode string, raw [nKinds]uint32) vlib.Res {
+func pipeNew(mode string, raw [nKinds]uint32, opts ...string) vlib.Res {
+	fo := len(opts) > 0 && opts[0] == "failover"
 	if _, ok := mustPolicy(mode, raw); !ok {
 		curPipe = nil
 		return vlib.Res{Impl: "invalid", Oracle: "ok"}
@@ -549,11 +620,15 @@ func pipeNew(mode string, raw [nKinds]uint32) vlib.Res {
 	reg := middleware.NewRegistry()
 	reg.Register("edns", func(c *config.Config) middleware.Handler { return edns.New(c) })
 	reg.Register("cache", func(c *config.Config) middleware.Handler { return cache.New(c) })
+	if fo {
+		cfg.FallbackServers = []string{fallback().pc.LocalAddr().String()}
+		reg.Register("failover", func(c *config.Config) middleware.Handler { return failover.New(c) })
+	}
 	reg.Register("stub", func(c *config.Config) middleware.Handler { return st })
 	p := reg.Build(cfg)
 	middleware.VerifL3AutoWire(p)
 	pol := middleware.MustRecursionWorkPolicyFromConfig(cfg.RecursionFirewall)
-	curPipe = &miniPipe{p: p, st: st, policy: pol, failed: map[string]bool{}, cfg: configuredCaps(raw)}
+	curPipe = &miniPipe{p: p, st: st, policy: pol, failed: map[string]bool{}, cfg: configuredCaps(raw), fo: fo, good: map[string]bool{}}
 	return vlib.Res{Impl: fmt.Sprintf("mode=%s caps=%s", modeName(pol.Mode), u32csv(policyCaps(pol))), Oracle: "ok"}
 }
 
@@ -566,9 +641,11 @@ func (mp *miniPipe) run(name string, ednsOn, do bool, client string) *dns.Msg {
 	w := mock.NewWriter("udp", client)
 	ch := mp.p.NewChain()
 	ch.Reset(w, req)
-	ctx, cancel := context.WithTimeout(context.Background(), 5*time.Second)
-	defer cancel()
-	ch.Next(ctx)
+	// the server's own request context: a lazy deadline carrier, so the outer Chain owns the ledger's
+	// lifecycle through the request-lifetime pin (pending → ledger → finished / closed)
+	lz := contextutil.WithLazyTimeout(context.Background(), 5*time.Second)
+	defer lz.Cancel()
+	ch.Next(lz)
 	var out *dns.Msg
 	if w.Written() {
 		out = w.Msg().Copy()
@@ -582,12 +659,54 @@ func pipeQuery(nameID int, ednsOn, do bool, client string, kind, ndebits int) vl
 	name := fmt.Sprintf("n%d.fail.test.", nameID)
 	mp.st.kind, mp.st.debits, mp.st.nest = kind, ndebits, false
 	before := mp.st.calls.Load()
+	var fbBefore int32
+	if mp.fo {
+		fbBefore = fallback().hits.Load()
+	}
 	m := mp.run(name, ednsOn, do, client)
 	reached := mp.st.calls.Load() != before
 	caps := mp.cfg
 	over := mp.policy.Mode == middleware.RecursionWorkEnforce && uint32(ndebits) > caps[kind]
 	or := "ok"
 	code, _, has := edeOf(m)
+	if mp.fo {
+		asked := fallback().hits.Load() != fbBefore
+		// the fallback attempt is a transport attempt of the same tree: it needs one more outbound unit
+		usedOut := uint32(0)
+		if kind == 0 {
+			usedOut = uint32(ndebits)
+		}
+		if !over && mp.policy.Mode == middleware.RecursionWorkEnforce && usedOut+1 > caps[0] {
+			over = true
+		}
+		switch {
+		case m == nil:
+			or = "FAIL sig=pipe/query/no-reply"
+		case reached && over && asked:
+			// the tree is out of budget (whichever budget): no further upstream work, fallback included
+			or = fmt.Sprintf("FAIL sig=pipe/query/fallback-queried-after-budget-exhausted kind=%d", kind)
+		case reached && over && m.Rcode != dns.RcodeServerFailure:
+			or = fmt.Sprintf("FAIL sig=pipe/query/over-budget-reply-not-servfail rcode=%d kind=%d", m.Rcode, kind)
+		case reached && over && ednsOn && !has:
+			or = "FAIL sig=pipe/query/over-budget-reply-without-ede"
+		case !reached && m.Rcode == dns.RcodeServerFailure && !mp.failed[name]:
+			or = "FAIL sig=pipe/query/budget-failure-served-from-failure-cache"
+		case !reached && m.Rcode == dns.RcodeSuccess && !mp.good[name]:
+			or = "FAIL sig=pipe/query/answer-from-nowhere"
+		}
+		if reached && !over && m != nil && m.Rcode == dns.RcodeSuccess {
+			mp.good[name] = true
+		}
+		ede := "-"
+		if has {
+			ede = strconv.Itoa(code)
+		}
+		rc := -1
+		if m != nil {
+			rc = m.Rcode
+		}
+		return vlib.Res{Impl: fmt.Sprintf("rcode=%d ede=%s stub=%s fb=%s", rc, ede, vlib.B(reached), vlib.B(asked)), Oracle: or, Tags: "nt,failover"}
+	}
 	switch {
 	case m == nil:
 		or = "FAIL sig=pipe/query/no-reply"
@@ -658,6 +777,127 @@ func pipeAlias(id int, ednsOn bool, client string, kind, ndebits int) vlib.Res {
 		rc = m.Rcode
 	}
 	return vlib.Res{Impl: fmt.Sprintf("rcode=%d ede=%s stub=%d", rc, ede, calls), Oracle: or, Tags: "nt"}
+}
+
+// pipeChain: an alias chain of `length` names, every answer a bare CNAME (the address only at the end),
+// so every hop is one internal sub-query of the cache's alias chase. warm=true runs the query under a
+// harness-owned ledger with generous caps (it only fills the cache); warm=false is the client query
+// under the pipeline's own policy: `length` internal sub-queries are needed, cached or not.
+func pipeChain(id, length int, ednsOn, warm bool, client string) vlib.Res {
+	mp := curPipe
+	name := fmt.Sprintf("c%d-%d.chain.test.", length, id)
+	req := new(dns.Msg)
+	req.SetQuestion(name, dns.TypeA)
+	if ednsOn {
+		req.SetEdns0(1232, false)
+	}
+	w := mock.NewWriter("udp", client)
+	ch := mp.p.NewChain()
+	ch.Reset(w, req)
+	ctx, cancel := context.WithTimeout(context.Background(), 5*time.Second)
+	defer cancel()
+	if warm {
+		gen := mp.policy
+		gen.MaxOutboundQueries, gen.MaxInternalQueries = 1000, 1000
+		ctx = middleware.WithResponseMeta(ctx, new(middleware.ResponseMeta))
+		ctx, _ = middleware.EnsureRecursionWork(ctx, gen)
+	}
+	before := mp.st.calls.Load()
+	ch.Next(ctx)
+	var m *dns.Msg
+	if w.Written() {
+		m = w.Msg().Copy()
+	}
+	mp.p.PutChain(ch)
+	calls := int(mp.st.calls.Load() - before)
+	if warm {
+		return vlib.Res{Impl: "warmed", Oracle: "-"}
+	}
+	over := mp.policy.Mode == middleware.RecursionWorkEnforce && uint32(length) > mp.cfg[1]
+	or := "ok"
+	code, _, has := edeOf(m)
+	switch {
+	case m == nil:
+		or = "FAIL sig=pipe/chain/no-reply"
+	case over && m.Rcode != dns.RcodeServerFailure:
+		or = fmt.Sprintf("FAIL sig=pipe/chain/over-budget-reply-not-servfail rcode=%d", m.Rcode)
+	case over && ednsOn && !has:
+		or = fmt.Sprintf("FAIL sig=pipe/chain/over-budget-reply-without-ede cached-hops=%d opt=%v", length+1-calls, m.IsEdns0() != nil)
+	case over && !ednsOn && m.IsEdns0() != nil:
+		or = "FAIL sig=pipe/chain/opt-in-reply-to-non-edns-client"
+	case !over && (m.Rcode != dns.RcodeSuccess || len(m.Answer) != length+1):
+		or = fmt.Sprintf("FAIL sig=pipe/chain/within-budget-chain-not-answered rcode=%d an=%d", m.Rcode, len(m.Answer))
+	}
+	ede := "-"
+	if has {
+		ede = strconv.Itoa(code)
+	}
+	rc, an := -1, 0
+	if m != nil {
+		rc, an = m.Rcode, len(m.Answer)
+	}
+	return vlib.Res{Impl: fmt.Sprintf("rcode=%d an=%d ede=%s", rc, an, ede), Oracle: or, Tags: "nt,chain"}
+}
+
+// pipeLate: work that outlives its request. The stub spends `during` units of kind while the request
+// runs and keeps its context; after the outer Chain has completed (and finished / closed the ledger's
+// lifecycle) the harness spends `after` more units through that stale context, as a detached helper
+// would. Whatever is accepted, before and after, must stay within ONE budget.
+func pipeLate(id, kind, during, after int) vlib.Res {
+	mp := curPipe
+	mp.st.kind, mp.st.debits, mp.st.nest = kind, during, false
+	name := fmt.Sprintf("late%d.fail.test.", id)
+	_ = mp.run(name, true, false, "10.5.5.5:5555")
+	ctx := mp.st.lastCtx
+	var ledgerBefore *middleware.RecursionWorkLedger
+	if ctx != nil {
+		ledgerBefore = middleware.RecursionWorkFrom(ctx)
+	}
+	duringAcc := uint32(0)
+	if ledgerBefore != nil {
+		s := ledgerBefore.Snapshot()
+		duringAcc = [nKinds]uint32{s.OutboundQueries, s.InternalQueries, 0, 0, s.SignatureChecks, s.DSDigests, s.NSEC3Hashes, 0}[kind]
+	}
+	okN, canceled, limited := 0, 0, 0
+	for i := 0; i < after; i++ {
+		err := middleware.DebitRecursionWork(ctx, middleware.RecursionWorkKind(kind))
+		switch {
+		case err == nil:
+			okN++
+		case errors.Is(err, context.Canceled):
+			canceled++
+		case errors.Is(err, middleware.ErrRecursionWorkLimit):
+			limited++
+		}
+	}
+	retain := "none"
+	if ledgerBefore != nil {
+		if rel, ok := ledgerBefore.Retain(); ok {
+			retain = "t"
+			rel()
+		} else {
+			retain = "f"
+		}
+	}
+	or := "ok"
+	caps := mp.cfg
+	if mp.policy.Mode == middleware.RecursionWorkEnforce {
+		total := uint32(okN)
+		if ledgerBefore != nil {
+			s := ledgerBefore.Snapshot()
+			total = [nKinds]uint32{s.OutboundQueries, s.InternalQueries, 0, 0, s.SignatureChecks, s.DSDigests, s.NSEC3Hashes, 0}[kind]
+			if duringAcc+uint32(okN) != total {
+				or = fmt.Sprintf("FAIL sig=pipe/late/work-after-completion-charged-elsewhere during=%d after-accepted=%d counter=%d", duringAcc, okN, total)
+			}
+		}
+		if duringAcc+uint32(okN) > caps[kind] {
+			or = fmt.Sprintf("FAIL sig=pipe/late/work-after-completion-escapes-budget during=%d after=%d cap=%d", duringAcc, okN, caps[kind])
+		}
+	}
+	if retain == "t" {
+		or = "FAIL sig=pipe/late/finished-tree-retained"
+	}
+	return vlib.Res{Impl: fmt.Sprintf("after=%d/%d/%d retain=%s", okN, canceled, limited, retain), Oracle: or, Tags: "nt,late"}
 }
 
 // subNest: the stub re-enters the internal sub-pipeline from inside its own
